@@ -49,6 +49,72 @@ APP_ASSUME = [
 ]
 
 
+def shrink_history(ctx, binp, hist, evals, still_fails, fail_codes=None, budget_s=150):
+    """minimise a failing history: keep only the blocks up to the first one at which the failure shows
+    (predicates are per block), then drop the transactions that failed (by C05 they have no effect, and
+    the consensus data of later blocks stays consistent).  Every candidate is executed again on a fresh
+    real node and judged by the same Coq evaluation; a candidate is kept only if it still fails."""
+    t0 = time.time()
+    tries = [0]
+
+    def fails(h):
+        tries[0] += 1
+        d = os.path.join(ctx.scratch, "shrink%d" % tries[0])
+        os.makedirs(d, exist_ok=True)
+        hp = os.path.join(d, "h.json")
+        json.dump([h], open(hp, "w"))
+        f = os.path.join(d, "cases_shrink.v")
+        rc, o = V.run_harness(ctx, binp, "app-replay", ["-json", hp, "-out", f, "-scratch", d, "-stats", os.path.join(d, "st.json"), "-evals", evals])
+        if rc != 0:
+            return False
+        r = V.run_case_files(ctx, [f], names=("bad", "eff", "neff"))[f]
+        shutil.rmtree(d, ignore_errors=True)
+        return r["rc"] == 0 and still_fails(r)
+
+    best = hist
+    nb = len(hist["Blocks"])
+    if not fails(hist):
+        return hist, {"shrunk": False, "why": "the recorded history does not fail when executed again"}
+    lo, hi = 1, nb            # smallest prefix that still fails
+    while lo < hi and time.time() - t0 < budget_s:
+        mid = (lo + hi) // 2
+        cand = dict(hist, Blocks=hist["Blocks"][:mid])
+        if fails(cand):
+            hi, best = mid, cand
+        else:
+            lo = mid + 1
+    cur = best
+    nkeep = len(cur["Blocks"])
+    # (2) failed transactions have no effect (C05): drop them all, if the failure survives
+    if fail_codes and time.time() - t0 < budget_s:
+        blocks = []
+        for bi, b in enumerate(cur["Blocks"]):
+            b2 = dict(b)
+            codes_b = fail_codes[bi] if bi < len(fail_codes) else []
+            txs = b.get("Txs") or []
+            if bi < nkeep - 1 and len(codes_b) == len(txs):
+                b2["Txs"] = [t for t, c in zip(txs, codes_b) if c == 0] or None
+            blocks.append(b2)
+        cand = dict(cur, Blocks=blocks)
+        if fails(cand):
+            cur = cand
+    # (3) the transactions of the last block, one by one from the end (nothing after it depends on them)
+    last = len(cur["Blocks"]) - 1
+    k = len(cur["Blocks"][last].get("Txs") or []) - 1
+    while k >= 0 and time.time() - t0 < budget_s:
+        blocks = [dict(b) for b in cur["Blocks"]]
+        txs = list(blocks[last].get("Txs") or [])
+        del txs[k]
+        blocks[last]["Txs"] = txs or None
+        cand = dict(cur, Blocks=blocks)
+        if fails(cand):
+            cur = cand
+        k -= 1
+    return cur, {"shrunk": True, "blocks_before": nb, "blocks_after": len(cur["Blocks"]),
+                 "txs_before": sum(len(b.get("Txs") or []) for b in hist["Blocks"]), "txs_after": sum(len(b.get("Txs") or []) for b in cur["Blocks"]),
+                 "candidates_executed": tries[0], "seconds": round(time.time() - t0)}
+
+
 def app_check(ctx, prop, props_v, theorems, codes, pred, extra_assume, known_classes=(), histories=None, blocks=None,
               profile="corpus", nontrivial_rule="", extra_evals=None, effect_codes=()):
     """proof stage + model-vs-RigoApp on generated histories, restricted to the projection `codes`,
@@ -121,9 +187,15 @@ def app_check(ctx, prop, props_v, theorems, codes, pred, extra_assume, known_cla
                 continue
             h = hs[idx]
             found_input = True
-            V.violation(ctx, "evm-effect-breaks-contract-%d" % mine[0][1],
+            key = "evm-effect-breaks-contract-%d" % mine[0][1]
+            slim, shrink_info = {k: h[k] for k in ("Seed", "Genesis", "Blocks", "WatchA", "WatchH", "StrTab", "OptTab")}, None
+            if key not in ctx.reported and not getattr(ctx, "replay", None):
+                fc = [[d["Code"] for d in (o.get("Delivers") or [])] for o in h["Obs"]]
+                want = set(effect_codes)
+                slim, shrink_info = shrink_history(ctx, binp, slim, evals, lambda r: any(c in want for e in (r.get("eff") or []) for (_, c) in e[1]), fail_codes=fc)
+            V.violation(ctx, key,
                         {"kind": "observed-evm-effect-violates-the-effect-contract", "what": EFFECT_TEXT.get(mine[0][1]), "positions_and_codes": mine,
-                         "theorem_hypothesis": "EffectCheck.effect_contract", "history": {k: h[k] for k in ("Seed", "Genesis", "Blocks", "WatchA", "WatchH", "StrTab", "OptTab")}})
+                         "theorem_hypothesis": "EffectCheck.effect_contract", "history": slim, "minimised": shrink_info})
     later = []   # divergences without a falsified predicate: reported only if no failing input turns up
     for f, r in res.items():
         if r["rc"] != 0 or r.get("bad") is None:
@@ -139,10 +211,14 @@ def app_check(ctx, prop, props_v, theorems, codes, pred, extra_assume, known_cla
             if p_impl is False:
                 known = [KNOWN_KEYS[c] for c in classes if c in known_classes]
                 key = known[0] if known else "trace-falsifies-" + pred
+                shrink_info = None
                 if not known:
                     found_input = True
+                    if key not in ctx.reported and not getattr(ctx, "replay", None):
+                        fc = [[d["Code"] for d in (o.get("Delivers") or [])] for o in h["Obs"]]
+                        slim, shrink_info = shrink_history(ctx, binp, slim, evals, lambda r: any(e[2] is False for e in (r.get("bad") or [])), fail_codes=fc)
                 V.violation(ctx, key, {"kind": "implementation-trace-falsifies-predicate", "predicate": pred, "theorem": theorems[0] if theorems else None,
-                                       "model_trace_also_falsifies": p_model is False, "history": slim,
+                                       "model_trace_also_falsifies": p_model is False, "history": slim, "minimised": shrink_info,
                                        "how_to_replay": "vh app-replay -json <this file's history as a list> ; evaluate %s" % pred})
             elif diff is not None:
                 later.append(("correspondence:spec-vs-app:%s" % diff[1][1],
